@@ -145,18 +145,19 @@ func oneCase(c *mon.Case, bf *bufs, s spec, n int, ivk string, hi bool, al int) 
 	}
 
 	var fusedOut []byte
+	fusedVerdict := vFail
 	for _, path := range s.paths() {
 		what := s.String() + " (" + path + ", " + aliasName[al] + ", guard " + side(hi) + ")"
 		got, ok := run(s, path, data, al, what)
 		if !ok {
 			continue
 		}
-		judge(c, what, s, path, m, data, got, want)
+		v := judge(c, what, call{s, path, m}, data, 0, n, got, want)
 		if path == pFused {
-			fusedOut = got
+			fusedOut, fusedVerdict = got, v
 		} else if fusedOut != nil {
 			// the paths are compared with each other through the common reference;
-			// a disagreement is always accompanied by a verdict of judge above
+			// a disagreement is always accompanied by a verdict of judge
 			c.Event("cross_path_pairs", 1)
 			if !bytes.Equal(got, fusedOut) {
 				c.Event("cross_path_disagreements", 1)
@@ -165,7 +166,7 @@ func oneCase(c *mon.Case, bf *bufs, s spec, n int, ivk string, hi bool, al int) 
 	}
 	// Decrypt o Encrypt = id inside the library (also demanded where an open
 	// finding makes the ciphertext itself differ from the definition)
-	if s.dir == "enc" && fusedOut != nil {
+	if s.dir == "enc" && fusedOut != nil && fusedVerdict <= vKnownInvertible {
 		op := s.opposite()
 		what := "inverse " + op.String() + " (fused)"
 		back, ok := run(op, pFused, fusedOut, aDisjoint, what)
